@@ -233,6 +233,12 @@ NOT_APPLICABLE = {
            "decide it but is a different technique.",
     "C11": "Same subject as C07 (every string through Lark) plus exception plumbing; the failing inputs are classes of "
            "texts, not values a solver ranges over (DESIGN.md §6).",
+    "C13": "Only observable through DynamicSchema::EncodeJson/DecodeJson(name, nlohmann::json): symbolic execution would have to "
+           "go through nlohmann::json's variant machinery, std::map (out-of-line red-black tree) and ~15 libstdc++/libc "
+           "functions (string internals, strtol, vsnprintf, log2) that need validated native models in the IR interpreter; "
+           "that surface is not encoded (DESIGN.md §6a). Not replaced by a concrete differential test.",
+    "C18": "Same boundary as C13 (fcp::can::Can over ICanSchema with nlohmann::json payloads and std::map lookups); the "
+           "static/dynamic CAN schemas are not reachable by the IR interpreter without the native-model surface of DESIGN.md §6a.",
     "C17": "Quantifies over interpreter state (PYTHONHASHSEED, process history), not over data the code computes on; "
            "there is no symbolic input to hand to a solver (DESIGN.md §6).",
 }
